@@ -82,6 +82,8 @@ pub trait Simulation: Sync {
   fn run(&self, seed: u64, tier: &str, known: &KnownFindings) -> RunReport;
   fn replay(&self, doc: &Value, known: &KnownFindings) -> ReplayOutcome;
   fn describe(&self) -> Describe;
+  /// once per process, before any measured run
+  fn warm_up(&self) {}
 }
 
 // ---------------------------------------------------------------------------------------
@@ -158,6 +160,7 @@ const MAX_VIOLATIONS_PER_WORKER: usize = 2;
 
 pub fn worker_main(sim: &dyn Simulation, a: WorkerArgs) -> ! {
   let known = KnownFindings::load();
+  sim.warm_up();
   let summary = Arc::new(Mutex::new(WorkerSummary {
     first_index: a.from,
     ..Default::default()
@@ -610,6 +613,7 @@ fn tail(s: &str) -> String {
 
 pub fn replay_main(sim: &dyn Simulation, path: &str) -> i32 {
   let known = KnownFindings::load();
+  sim.warm_up();
   let text = match std::fs::read_to_string(path) {
     Ok(t) => t,
     Err(e) => {
